@@ -32,6 +32,7 @@ PROFILE = {
     "p_restart": 0.7,
     "p_load_after": 0.8,
     "p_mutate": 0.04,
+    "p_driver_keep": 0.15,
     "p_proc2": 0.4,
     "stores": ("local", "local", "local+cache", "memory"),
 }
